@@ -31,7 +31,7 @@ RULES = {
           "remaining time (timeout - elapsed, or None only for a negative = infinite timeout); the elapsed time is recomputed after every wait; the "
           "non-blocking mode (timeout None) polls with a zero select timeout; VMIN is reset to 0 after the blocking min-read; from each select() no path returns to the loop test without recomputing the elapsed time",
     "R5": "style selection: _styles lists every concrete BaseImage subclass once in the documented preference order (kitty, iterm2, block; "
-          "text-based last); auto_image_class returns the first supported class, else the last; support rules use the documented names/versions; decided on the traced condition sets under which `cls._supported = True` is stored (kitty: OK reply to the graphics query and kitty >= 0.20.0 or konsole; iterm2: a truth table over terminal name x version new enough x version parse failed); the terminal name is lower-cased on every return path of get_terminal_name_version; the dotted-integer version parse runs only for konsole; every read of the environment in the value returned by get_terminal_name_version is selected under the negation of the XTVERSION match (the environment is only the fallback)",
+          "text-based last); auto_image_class returns the first supported class, else the last; support rules use the documented names/versions; decided on the traced condition sets under which `cls._supported = True` is stored (kitty: OK reply to the graphics query and kitty >= 0.20.0 or konsole; iterm2: a truth table over terminal name x version new enough x version parse failed); the terminal name is lower-cased on every return path of get_terminal_name_version; the dotted-integer version parse runs only for konsole; every read of the environment in the value returned by get_terminal_name_version is selected under the negation of the XTVERSION match (the environment is only the fallback); a konsole version test that is not the canonical tuple comparison is decided on concrete konsole versions",
 }
 U, CS, KT, IT, IM, I = "utils.py", "_ctlseqs.py", "image/kitty.py", "image/iterm2.py", "image/__init__.py", "__init__.py"
 MAY_CONTAIN_C = {"TEXT_FG_QUERY_b", "TEXT_BG_QUERY_b", "XTVERSION_b"}
